@@ -2,8 +2,8 @@ def plan(tier):
     t = 1 if tier == 'thorough' else 0
     units = []
     for comp in ('g++', 'clang++'):
-        for part in range(13):
-            if comp == 'clang++' and not t and part % 2 == 0 and part != 12:
+        for part in range(14):
+            if comp == 'clang++' and not t and part % 2 == 0 and part < 12:
                 continue
             units.append(dict(name='%s-p%d' % (comp, part), src='C12.cpp', compiler=comp, mode='ndebug', opt='-O0',
                               defines=['VF_TIER=%d' % t, 'VF_PART=%d' % part], shards=2))
@@ -13,6 +13,7 @@ def plan(tier):
              '18 (T,U) pairs over 8..64-bit; 8-bit pairs enumerated completely, wider over the boundary lattice plus shift counts 0..66; per state: + - * / %% & | ^ << >>, six comparisons, '
              'eight compound assignments, unary - + ~, ++/-- pre/post, each compared with the built-in expression (value and promoted result type); '
              'documentation kernels multiply-widen, average, mixed-exponent add, square vs hand-written integer code; '
+             '15 general scaled_integer<Rep,power<E,Radix>> programs (radix 2/3/8/10/16, E<=0): ++/-- pre/post must add exactly Radix^-E to the rep, += -= *= /= must equal S(a op b); '
              'non-trivial = operand types differ, an operand is changed by the usual arithmetic conversions, or the result is within 2 of a limit',
         bound=dict(nestings=6, type_pairs=18, lattice_step=1 if t else 3),
         assumptions=['states where the built-in reference expression is undefined (signed overflow, shift count out of range, zero divisor, lowest / -1) are skipped and counted',
